@@ -49,6 +49,21 @@ def fresh_bytes(path, name, length=None, mutable=False):
     return SBytes([CSeg(f, 0, length)], mutable)
 
 
+def fix(I, b):
+    """Replace symbolic segment lengths/offsets by constants where the path condition determines them."""
+    for s in b.segs:
+        if isinstance(s, CSeg):
+            if not isinstance(s.n, int):
+                c = I.path.const_value(s.n)
+                if c is not None:
+                    s.n = c
+            if not isinstance(s.off, int):
+                c = I.path.const_value(s.off)
+                if c is not None:
+                    s.off = c
+    return b
+
+
 def blen(I, b):
     n = b.length()
     return n if isinstance(n, int) else I.sint(n)
@@ -187,12 +202,16 @@ def _le(I, a, b):
 def _max(I, a, b):
     if isinstance(a, int) and isinstance(b, int):
         return max(a, b)
+    if isinstance(b, int):
+        return b if I.path.decide(iexpr(b) >= iexpr(a)) else a
     return a if I.path.decide(iexpr(a) >= iexpr(b)) else b
 
 
 def _min(I, a, b):
     if isinstance(a, int) and isinstance(b, int):
         return min(a, b)
+    if isinstance(b, int):
+        return b if I.path.decide(iexpr(b) <= iexpr(a)) else a
     return a if I.path.decide(iexpr(a) <= iexpr(b)) else b
 
 
@@ -217,6 +236,10 @@ def eq(I, a, b):
     a = to_sbytes(a)
     b = to_sbytes(b)
     na, nb = a.fixed_len(), b.fixed_len()
+    if na is None:
+        na = fix(I, a).fixed_len()
+    if nb is None:
+        nb = fix(I, b).fixed_len()
     if na is not None and nb is not None:
         if na != nb:
             return False
@@ -269,6 +292,14 @@ def int_to_bytes(I, x, length, byteorder="big", signed=False):
     if isinstance(length, SVal) or isinstance(byteorder, SVal) or signed:
         raise Unsupported("int.to_bytes with symbolic length / signed")
     e = iexpr(x)
+    from .intops import be_of
+
+    be = be_of(x) if not isinstance(x, int) else None
+    if be is not None and len(be) <= length:
+        segs = [BSeg(0)] * (length - len(be)) + [BSeg(v) for v in be]
+        if byteorder == "little":
+            segs.reverse()
+        return SBytes(segs, False)
     if not I.path.decide(z3.And(e >= 0, e < (1 << (8 * length)))):
         I.raise_py(OverflowError, "int too big to convert" )
     segs = []
@@ -286,6 +317,8 @@ def int_to_bytes(I, x, length, byteorder="big", signed=False):
 def int_from_bytes(I, b, byteorder="big", signed=False):
     b = to_sbytes(b)
     n = b.fixed_len()
+    if n is None:
+        n = fix(I, b).fixed_len()
     if n is None or signed or isinstance(byteorder, SVal):
         raise Unsupported("int.from_bytes of symbolic-length bytes")
     bb = SBytes(b.segs).expand()
@@ -293,4 +326,6 @@ def int_from_bytes(I, b, byteorder="big", signed=False):
     e = z3.IntVal(0)
     for i in idx:
         e = e * 256 + bb.at(i)
-    return I.sint(z3.simplify(e), 0, 8 * n)
+    from .intops import from_be
+
+    return from_be(I, [bb.at(i) for i in idx], nb=8 * n) if n else 0
